@@ -19,7 +19,7 @@ META = dict(
                 "equations written from the statement: (I - W'^T) mean = mu' and (I - W'^T) cov (I - W') = diag(D') with do > noise > "
                 "shift precedence and scalar = point mass; polynomial identities decided for all weights/parameters at once. The same "
                 "is done with integer-typed W / means / variances arrays (symbolic Ints) and real-valued intervention parameters, and "
-                "with interventions passed as dict, {} or None. (low, high) ranges: every sampled mean / variance is low + (high-low)*U "
+                "with interventions passed as dict (keys inserted in ascending and in descending order), {} or None. (low, high) ranges: every sampled mean / variance is low + (high-low)*U "
                 "with its own uniform variate, hence inside the range.",
     bounds=dict(quick="p <= 2 all intervention assignments (11 per variable: none, do/noise/shift with tuple or scalar parameter, the 4 overlaps); p = 3 with at most 2 intervened variables; integer-typed models p <= 2 all, p = 3 at most 1 intervened variable; ranges p <= 3",
                 thorough="p = 3 all assignments (float and int); p = 4 with at most 2 intervened variables"),
@@ -45,7 +45,7 @@ def h_law(dtype, how='dict'):
         e = ctx.eng
         lg = ctx.mod('sempler.lganm')
         rows, pat, means, variances = SI.sym_model(ctx, dtype)
-        do, noise, shift, descr = SI.sym_interventions(ctx, p, kinds_allowed=KINDS11, scalar_params=True,
+        do, noise, shift, descr = SI.sym_interventions(ctx, p, kinds_allowed=(KINDS11[:4] if ctx.params.get('kinds_simple') else KINDS11), scalar_params=True,
                                                        max_targets=ctx.params.get('max_targets'))
         # scalar parameters only on single-kind targets (keeps the number of paths manageable)
         for d in descr:
@@ -174,6 +174,10 @@ def obligations(tier):
                              expect=('returned',), weight=p * 5))
         ob.append(Obligation('law_int_p%d' % p, h_law('int'), I.dag_pair_cubes(p, 0), "population law, integer-typed model arrays, %d variables" % p,
                              expect=('returned',), weight=p * 5))
+    ob.append(Obligation('law_float_desc_p2', h_law('float'), [dict(c, dict_order='desc') for c in I.dag_pair_cubes(2, 0)],
+                         "population law, 2 variables, intervention dicts built in descending key order", expect=('returned',), weight=8))
+    ob.append(Obligation('law_float_desc_p3', h_law('float'), [dict(c, dict_order='desc', max_targets=2, kinds_simple=True) for c in I.dag_pair_cubes(3, 3)],
+                         "population law, 3 variables, at most 2 intervened (single kinds), dicts built in descending key order", expect=('returned',), weight=30, timeout_ms=120000))
     ob.append(Obligation('law_float_none_p2', h_law('float', 'none'), I.dag_pair_cubes(2, 0), "interventions passed as None / {} , 2 variables",
                          expect=('returned',), weight=5))
     full3 = tier == 'thorough'
